@@ -268,9 +268,12 @@ def build(recipe):
             shp = L["shape"]
             if int(np.prod(shp)) != int(np.prod(x["shape"])):
                 raise ValueError("RESHAPE element count mismatch")
-            st = add_tensor(nm + "_shape", [len(shp)], "int32", None, np.array(shp, np.int32))
+            wshp = list(shp)
+            if L.get("minus1") and len(shp) > 0:
+                wshp[int(np.argmax(shp))] = -1  # the largest dimension left to be inferred
+            st = add_tensor(nm + "_shape", [len(shp)], "int32", None, np.array(wshp, np.int32))
             y = new_value(nm, shp, x["dtype"], x["q"])
-            add_op(BO[op], [x["t"], st], [y["t"]], ("ReshapeOptions", {"NewShape": np.array(shp, np.int32)}))
+            add_op(BO[op], [x["t"], st], [y["t"]], ("ReshapeOptions", {"NewShape": np.array(wshp, np.int32)}))
         elif op in ("SQUEEZE", "EXPAND_DIMS"):
             shp = L["shape"]
             y = new_value(nm, shp, x["dtype"], x["q"])
@@ -482,6 +485,8 @@ def gen_recipe(r, cfg=None, profile="mixed"):
         for v in L["in"]:
             vals[v]["uses"] += 1
         L["seed"] = r.randrange(1 << 30)
+        if L["op"] == "RESHAPE" and "minus1" not in L and r.random() < 0.15:
+            L["minus1"] = True
         if L["op"] in ("CONCATENATION", "SPLIT", "PACK", "UNPACK", "MEAN", "ARG_MAX") and r.random() < 0.25:
             L["axis_neg"] = True  # the same axis written as a negative number
         if dtype == "int16" and L["op"] in ("CONV_2D", "DEPTHWISE_CONV_2D", "FULLY_CONNECTED", "TRANSPOSE_CONV") and "bias64" not in L:
@@ -817,7 +822,10 @@ def gen_recipe(r, cfg=None, profile="mixed"):
                 emit(dict(op="FULLY_CONNECTED", oc=oc_, act="NONE", q=list(oq), bias=r.random() < 0.5, w_from=wv[0], flatten=False, **{"in": a2}), [batch, oc_], oq)
                 continue
             if kind == "argmax":
-                emit(dict(op="ARG_MAX", axis=3, **{"in": [xi]}), x["shape"][:-1], None, odtype="int32")
+                am = emit(dict(op="ARG_MAX", axis=3, **{"in": [xi]}), x["shape"][:-1], None, odtype="int32")
+                if r.random() < 0.5:
+                    # RESHAPE of the 32-bit result: passes the semantic checks, is placed on the CPU by the supported-operator check
+                    emit(dict(op="RESHAPE", shape=[1, H * W], minus1=r.random() < 0.6, **{"in": am}), [1, H * W], None, odtype="int32")
                 continue
             if kind in ("dyn_fc", "argmax"):
                 continue
@@ -836,6 +844,8 @@ def gen_recipe(r, cfg=None, profile="mixed"):
                     continue
                 L = dict(op="CONV_2D", k=[1, 1], oc=8, stride=[4, 4], dil=[1, 1], pad="VALID", act="NONE", q=list(oq), per_axis=False,
                          wstyle="small", wscale=0.01, bias=True)
+                if C % 2 == 0 and r.random() < 0.5:
+                    L["groups"] = 2  # a grouped convolution that stays on the CPU must not be taken apart
                 L["in"] = [xi]
                 emit(L, [1, conv_out(H, 1, 4, 1, "VALID"), conv_out(W, 1, 4, 1, "VALID"), 8], oq)
             else:
